@@ -425,13 +425,14 @@ def maint_shard(root, version):
     import time
     acc = _acc()
     n = 0
-    for age_other in (0, 29 * DAY, 31 * DAY):
+    for age_other, age_saved in ((0, 0), (29 * DAY, 0), (31 * DAY, 0), (0, 31 * DAY), (31 * DAY, 31 * DAY)):
         for lock in ('absent', '1h', '2d'):
             for saved in (0, 1):
                 n += 1
                 acc.evaluations += 1
                 acc.nontrivial += 1
-                case = {'kind': 'maint', 'age_other_days': age_other // DAY, 'lock': lock, 'saved': saved, 'version': version}
+                case = {'kind': 'maint', 'age_other_days': age_other // DAY, 'age_saved_days': age_saved // DAY,
+                        'lock': lock, 'saved': saved, 'version': version}
                 ws = [World(root, i, version) for i in (0, 1)]
                 try:
                     # both modules share one cache directory
@@ -454,6 +455,8 @@ def maint_shard(root, version):
                         os.utime(lockp, (t, t))
                     # the saved module changes -> it is parsed and saved again (this runs the maintenance)
                     s = ws[saved]
+                    ps = s.pickle_path()
+                    os.utime(ps, (now - age_saved, os.path.getmtime(ps)))    # last *read* long ago
                     t = now + 5
                     os.utime(s.src, (t, t))
                     try:
